@@ -52,6 +52,17 @@ Definition verdicts (t : task) (running : list task) : list bool :=
 (* Ensure: `for _, blocked := range r.blocked { if blocked(t, running) {...continue ConsiderTasks} }` *)
 Definition blocked (t : task) (running : list task) : bool := existsb (fun b => b) (verdicts t running).
 
+(* TaskRunner.blocked as data: AddBlocked appends a predicate, SetBlocked replaces them all; Ensure asks them in
+   registration order and stops at the first that says true *)
+Definition pred := task -> list task -> bool.
+Definition add_blocked (ps : list pred) (p : pred) : list pred := ps ++ [p].
+Definition set_blocked (p : pred) : list pred := [p].
+Definition blocked_by (ps : list pred) (t : task) (running : list task) : bool := existsb (fun p => p t running) ps.
+
+(* what overlord.New registers, in the order of the driver's first world (hookstate, snapstate, ifacestate, devicestate) *)
+Definition registered : list pred :=
+  add_blocked (add_blocked (add_blocked (add_blocked [] hook_blocked) prereq_blocked) iface_blocked) gadget_blocked.
+
 (* ------------------------------------------------------------------------------------------ the specification
    two tasks that must not execute at the same time *)
 Definition conflict (a b : task) : bool :=
@@ -102,14 +113,35 @@ Fixpoint ensure_loop (tb : tombs) (running : list task) (cs : list cand) : tombs
 
 Definition ensure_pass (tb : tombs) (cs : list cand) : tombs := ensure_loop tb (map fst tb) cs.
 
+(* r.someBlocked after the pass: set when a candidate was skipped because a predicate said true. When it is set, every
+   finishing goroutine asks for another Ensure (`if r.someBlocked { r.state.EnsureBefore(0) }`) *)
+Fixpoint some_blocked_loop (tb : tombs) (running : list task) (cs : list cand) : bool :=
+  match cs with
+  | [] => false
+  | CSkip :: r => some_blocked_loop tb running r
+  | CClean t :: r =>
+      if has_tomb (t_id t) tb then some_blocked_loop tb running r
+      else some_blocked_loop (tb ++ [(t, true)]) running r
+  | CRun t :: r =>
+      if has_tomb (t_id t) tb then some_blocked_loop tb running r
+      else if blocked t running then true
+      else some_blocked_loop (tb ++ [(t, false)]) (running ++ [t]) r
+  end.
+Definition some_blocked (tb : tombs) (cs : list cand) : bool := some_blocked_loop tb (map fst tb) cs.
+
 Inductive event :=
 | EEnsure (cs : list cand)     (* one TaskRunner.Ensure pass over the tasks in some iteration order *)
-| EDone (id : N).              (* the goroutine of task id finishes: delete(r.tombs, id) *)
+| EDone (id : N)               (* the goroutine of task id finishes: delete(r.tombs, id) *)
+| EAbort (ids : list N)        (* Change.Abort / abortLanes: statuses change, tombs are killed but stay in r.tombs until
+                                  their goroutine returns; which tasks are candidates afterwards is the next EEnsure's input *)
+| ERestart.                    (* snapd restarts: a new TaskRunner, no goroutines; Doing tasks are candidates again *)
 
 Definition step (tb : tombs) (e : event) : tombs :=
   match e with
   | EEnsure cs => ensure_pass tb cs
   | EDone id => List.filter (fun x => negb (N.eqb (t_id (fst x)) id)) tb
+  | EAbort _ => tb
+  | ERestart => []
   end.
 
 Definition run (evs : list event) : tombs := fold_left step evs [].
@@ -134,7 +166,9 @@ Inductive case :=
 | CBlocked (t : task) (running : list task) (observed : list bool)
 (* a real TaskRunner.Ensure pass: tasks with a tomb before (with cleanup flag), tasks with a do/undo tomb after,
    tasks that were runnable (Do status, no tomb, nothing to wait for) before the pass and still have no tomb after *)
-| CPass (before : tombs) (after_handlers : list task) (idle : list task)
+| CPass (before : tombs) (after_handlers : list task) (idle : list task) (some_blocked : bool)
+(* the predicates registered in another order (devicestate, ifacestate, snapstate after hookstate): observed disjunction *)
+| CBlockedAny (t : task) (running : list task) (observed : bool)
 (* the set of handlers executing at one instant (recorded when a handler starts) *)
 | CExec (executing : list task)
 (* every task with a tomb after an Ensure pass, with its cleanup flag *)
@@ -146,7 +180,10 @@ Definition subset_ids (a b : list task) : bool :=
 Definition mismatch (c : case) : bool :=
   match c with
   | CBlocked t running observed => negb (list_eqb Bool.eqb (verdicts t running) observed)
-  | CPass before after_h idle =>
+  | CBlockedAny t running observed => negb (Bool.eqb (blocked t running) observed)
+  | CPass before after_h idle sb =>
+      (* r.someBlocked is set exactly when some runnable task was skipped by a predicate, i.e. left idle *)
+      negb (Bool.eqb sb (negb (is_nil_b idle))) ||
       (* the pass is order dependent; what every order satisfies: whatever was left idle is blocked by the final
          running set (the predicates are monotone), and what was started is not blocked by what ran before *)
       negb (forallb (fun t => blocked t (map fst before ++ after_h)) idle) ||
@@ -195,7 +232,8 @@ Definition monitor_fail (c : case) : bool :=
   | CBlocked t running observed =>
       (* letting the candidate run next to a conflict-free running set must keep it conflict free *)
       spec_excl running && negb (existsb (fun b => b) observed) && negb (spec_excl (running ++ [t]))
-  | CPass before after_h idle => spec_excl (handlers before) && negb (spec_excl after_h)
+  | CBlockedAny t running observed => spec_excl running && negb observed && negb (spec_excl (running ++ [t]))
+  | CPass before after_h idle _ => spec_excl (handlers before) && negb (spec_excl after_h)
   | CExec executing => negb (spec_excl executing)
   | CTombs tb => negb (spec_excl (handlers tb))
   end.
@@ -212,5 +250,5 @@ Definition cleanup_monitor_fail (c : case) : bool :=
 (* no Ensure pass of the history starts a cleanup (no ready change has an uncleaned task of a kind with a cleanup handler) *)
 Definition no_clean_cand (c : cand) : bool := match c with CClean _ => false | _ => true end.
 Definition no_clean (evs : list event) : bool :=
-  forallb (fun e => match e with EEnsure cs => forallb no_clean_cand cs | EDone _ => true end) evs.
+  forallb (fun e => match e with EEnsure cs => forallb no_clean_cand cs | _ => true end) evs.
 
